@@ -242,6 +242,14 @@ class Layer(Graph):
             nonlocal is_leaf
 
             typ = type(o)
+            if isinstance(o, GraphNode):
+                # task objects (e.g. the layers of dask.delayed) reference other
+                # keys through their dependencies
+                subs = {k: clone_key(k, seed) for k in o.dependencies if k in keys}
+                if not subs:
+                    return o
+                is_leaf = False
+                return o.substitute(subs)
             if typ is tuple and o and callable(o[0]):
                 return (o[0],) + tuple(clone_value(i) for i in o[1:])
             elif typ is list:
@@ -265,6 +273,8 @@ class Layer(Graph):
                 key = clone_key(key, seed)
                 is_leaf = True
                 value = clone_value(value)
+                if isinstance(value, GraphNode):
+                    value = value.substitute({}, key=key)
                 if bind_to is not None and is_leaf:
                     value = (chunks.bind, value, bind_to)
                     bound = True
